@@ -237,3 +237,4 @@ def check(ctx):
         ctx.missing("R-PAIR", R + "::read", "read/canceled-releases-reader-mutex", "no `Err(Canceled)` test on self.lock() in RwLock::read")
     ctx.import_rules("C05", r"^handshake|^waker|^handover|^acquire-evidence|^mutex/")
     shared.drops_do_not_block_unmasked(ctx)
+    shared.handoff_not_recursive(ctx, "may::sync::rwlock")
